@@ -242,6 +242,10 @@ class DefaultTransfer(Transfer):
             xfer = (src_sys, src_var, tgt_sys, tgt_var)
             transfers[tgt_sys].append(xfer)
 
+        if group.comm.size == 1:
+            # a full transfer (NonlinearBlockJac, apply_nonlinear) moves all of them
+            transfers[None] = [xfer for xfers in list(transfers.values()) for xfer in xfers]
+
         if group.comm.size > 1:
             # collect all xfers for each tgt system
             for tgt, src in group._conn_discrete_in2out.items():
